@@ -129,9 +129,21 @@ def one_alignment(start, end, eS, eE, kw, factor, seed, observe=True, reassign='
         # the other public entry point: the species' Alignment of a Manager, options given per molecule name
         from gaddlemaps import Manager
         from gaddlemaps.components import System
-        man = Manager(System(*via_manager))
+        # a second species in the same system, with its own options, listed in another order than the system's
+        d_ = os.path.dirname(via_manager[0])
+        recs = [(1, start.resnames[0], a.name, i + 1, tuple(float(x) for x in a.position)) for i, a in enumerate(start)]
+        dpos = np.array([[8.0, 8.0, 8.0], [8.2, 8.0, 8.1], [8.3, 8.2, 8.0]])
+        recs += [(2, 'DEC', 'D%d' % (k + 1), len(recs) + k + 1, tuple(dpos[k])) for k in range(3)]
+        both = os.path.join(d_, 'both.gro')
+        synth.write_gro(both, recs)
+        synth.write_itp(os.path.join(d_, 'DEC.itp'), 'DEC', [('D1', 'DEC', 1), ('D2', 'DEC', 1), ('D3', 'DEC', 1)], [(1, 2), (2, 3)])
+        dec_end = synth.make_molecule(os.path.join(d_, 'decend'), 'DEC', ['E1', 'E2', 'E3', 'E4'], [(1, 2), (2, 3), (3, 4)],
+                                      np.array([[1.0, 1.0, 1.0], [1.1, 1.2, 1.0], [1.3, 1.2, 1.1], [1.4, 1.0, 1.2]]))
+        man = Manager(System(both, via_manager[1], os.path.join(d_, 'DEC.itp')))
         ali = man.molecule_correspondence[start.name]
         ali.end = end
+        man.molecule_correspondence['DEC'].end = dec_end
+        man.molecule_correspondence['DEC'].STEPS_FACTOR = 1
     else:
         ali = Alignment(start, end)
     ali.STEPS_FACTOR = factor
@@ -150,6 +162,8 @@ def one_alignment(start, end, eS, eE, kw, factor, seed, observe=True, reassign='
         aS, aE = ali.start.atoms_positions.copy(), ali.end.atoms_positions.copy()
         mol1 = np.array(mol1, float)
         mol2a = np.array(mol2, float)
+        if man is not None and not ((mol2a.shape == aS.shape and project.same(mol2a, aS)) or (mol2a.shape == aE.shape and project.same(mol2a, aE))):
+            return real_min(mol1, mol2, com, sigma, n_steps, restr, table, width, types)      # the other species' alignment
         rec['enter'] = True
         mobile = 'as' if project.same(mol2a, aS) and not project.same(mol2a, aE) else \
                  'ae' if project.same(mol2a, aE) and not project.same(mol2a, aS) else 'unobserved'
@@ -184,9 +198,11 @@ def one_alignment(start, end, eS, eE, kw, factor, seed, observe=True, reassign='
         with contextlib.redirect_stdout(io.StringIO()):
             if man is not None:
                 nm = start.name
-                man.align_molecules(restrictions={nm: list(kw['restrictions'] or [])},
-                                    deformation_types=None if kw['deformation_types'] is None else {nm: kw['deformation_types']},
-                                    ignore_hydrogens={nm: kw['ignore_hydrogens']}, parse_restrictions=False)
+                defo = {'DEC': (0, 1, 2)}
+                if kw['deformation_types'] is not None:
+                    defo = {nm: kw['deformation_types'], 'DEC': (0, 1, 2)}
+                man.align_molecules(restrictions={'DEC': [], nm: list(kw['restrictions'] or [])}, deformation_types=defo,
+                                    ignore_hydrogens={nm: kw['ignore_hydrogens'], 'DEC': False}, parse_restrictions=False)
             else:
                 ali.align_molecules(**kw)
     finally:
